@@ -149,12 +149,13 @@ PROPS = {
     "C13": dict(
         title="retry: bounded attempts, no transition from a retried attempt",
         theorems={ITEMS: ["C13_retry_iff", "C13_retry_requires_tally_below_count", "C13_completed_rows", "C13_retry_event_reopens"],
-                  RETRY: ["C13_tally_bounded", "C13_update_keeps_bound", "C13_retrying_only_by_retry_event", "C13_retry_event_licensed", "C13_no_retry_without_status_change"],
+                  RETRY: ["C13_tally_bounded", "C13_update_keeps_bound", "C13_retrying_only_by_retry_event", "C13_retry_event_licensed", "C13_no_retry_without_status_change",
+                          "C13_restage_bumps_once", "C13_no_restage_otherwise"],
                   FROZEN: ["C13_retried_attempt_undecided", "C18_decided_records_completed"],
                   ANCESTRY: ["C13_reoffer_carries_retry_delay"]},
         keys=["status", "staged", "sequence", "contexts"], offers="full",
         prof=dict(p_retry=0.8, max_tasks=4, p_template=0.3, templates=[10, 10, 10, 3, 3], p_badtype=0.08), hist=dict(p_fail=0.5, p_pause=0.05, p_dup_report=0.2), monitor="C13",
-        unproven=["that each re-offer corresponds to exactly one bump of the tally is monitored, not proved (the delay a re-offer carries is proved: C13_reoffer_carries_retry_delay); proved along every history: the tally never exceeds the count (C13_tally_bounded) and a retried attempt has no recorded decision, hence no transition, publish or handler (C13_retried_attempt_undecided)"],
+        unproven=["that along a whole history the number of re-offers of a visit equals the final tally is monitored, not proved (proved per step: one bump and one staged entry per re-staging, C13_restage_bumps_once, and the delay a re-offer carries, C13_reoffer_carries_retry_delay); proved along every history: the tally never exceeds the count (C13_tally_bounded) and a retried attempt has no recorded decision, hence no transition, publish or handler (C13_retried_attempt_undecided)"],
     ),
     "C14": dict(
         title="composed graph is exactly the definition",
